@@ -876,7 +876,7 @@ class Interp:
         return h
 
     def fab_n_bytes(self, fab):
-        return Num(Ratio(8) * C(fab, 3).r * N(fab).r)
+        return Num(Ratio(8) * C(fab, self.roles.ndims).r * N(fab).r)
 
     def norm_r(self, r):
         """apply the role table's well-formedness equivalences"""
